@@ -10,6 +10,7 @@ import (
 	"database/sql/driver"
 	"errors"
 	"io"
+	"strconv"
 	"strings"
 
 	"github.com/arana-db/parser"
@@ -71,6 +72,7 @@ type aDB struct {
 	auto     int    // index of the auto-increment column, -1 if none
 	rows     []aRow
 	nextAuto int64
+	autoStep int64 // auto_increment_increment of this server / session (0: 1)
 
 	bad     string
 	journal []string
@@ -83,11 +85,11 @@ type aDB struct {
 	// transactions (one connection): BEGIN takes a snapshot, ROLLBACK restores it; with
 	// txSteps the transaction commands and the undo-log insert are statements of their
 	// own for failAt and appear in the journal
-	txSteps  bool
-	txOpen   bool
-	txSnap   []aRow
-	undoRows []aUndoRow
-	undoSnap int
+	txSteps   bool
+	txOpen    bool
+	txSnap    []aRow
+	undoRows  []aUndoRow
+	undoSnap  int
 	commitsOK int
 	// which step the injected failure hit ("statement" for a query or DML statement)
 	journalFailed string
@@ -413,7 +415,7 @@ func (aUndoStmt) Query([]driver.Value) (driver.Rows, error) {
 func (c *aConn) Prepare(q string) (driver.Stmt, error) {
 	c.d.journal = append(c.d.journal, q)
 	if strings.HasPrefix(strings.ToUpper(strings.TrimSpace(q)), "SHOW VARIABLES LIKE 'AUTO_INCREMENT_INCREMENT'") {
-		return aShowStmt{}, nil
+		return aShowStmt{c.d}, nil
 	}
 	if strings.HasPrefix(strings.ToUpper(strings.TrimSpace(q)), "INSERT INTO UNDO_LOG") || strings.HasPrefix(strings.ToUpper(strings.TrimSpace(q)), "INSERT INTO  UNDO_LOG") {
 		return aUndoStmt{c.d}, nil
@@ -421,18 +423,25 @@ func (c *aConn) Prepare(q string) (driver.Stmt, error) {
 	return nil, errors.New("adb: prepare not supported")
 }
 
-type aShowStmt struct{}
+type aShowStmt struct{ d *aDB }
 
 func (aShowStmt) Close() error  { return nil }
 func (aShowStmt) NumInput() int { return 0 }
 func (aShowStmt) Exec([]driver.Value) (driver.Result, error) {
 	return nil, errors.New("adb: exec of SHOW")
 }
-func (aShowStmt) Query([]driver.Value) (driver.Rows, error) {
-	return &aShowRows{}, nil
+func (s aShowStmt) Query([]driver.Value) (driver.Rows, error) {
+	step := int64(1)
+	if s.d != nil && s.d.autoStep > 0 {
+		step = s.d.autoStep
+	}
+	return &aShowRows{step: step}, nil
 }
 
-type aShowRows struct{ done bool }
+type aShowRows struct {
+	done bool
+	step int64
+}
 
 func (r *aShowRows) Columns() []string { return []string{"Variable_name", "Value"} }
 func (r *aShowRows) Close() error      { return nil }
@@ -441,7 +450,7 @@ func (r *aShowRows) Next(dest []driver.Value) error {
 		return io.EOF
 	}
 	r.done = true
-	row := []driver.Value{[]byte("auto_increment_increment"), []byte("1")}
+	row := []driver.Value{[]byte("auto_increment_increment"), []byte(strconv.FormatInt(r.step, 10))}
 	for i := range dest {
 		if i < len(row) {
 			dest[i] = row[i]
@@ -669,7 +678,11 @@ func (c *aConn) execOne(st ast.StmtNode, q string, args []driver.NamedValue) (dr
 				if first == 0 {
 					first = d.nextAuto
 				}
-				d.nextAuto++
+				if d.autoStep > 0 {
+					d.nextAuto += d.autoStep
+				} else {
+					d.nextAuto++
+				}
 			}
 			// duplicate key?
 			dup := -1
